@@ -5,11 +5,13 @@ package encoder
 
 func CompileToGetCodeSet(ctx *RuntimeContext, typeptr uintptr) (*OpcodeSet, error) {
 	initEncoder()
+	verifCacheGate("lookup", typeptr)
 	if typeptr > typeAddr.MaxTypeAddr || typeptr < typeAddr.BaseTypeAddr {
 		codeSet, err := compileToGetCodeSetSlowPath(typeptr)
 		if err != nil {
 			return nil, err
 		}
+		verifCacheReturn("slow", typeptr, 0, codeSet)
 		return getFilteredCodeSetIfNeeded(ctx, codeSet)
 	}
 	index := (typeptr - typeAddr.BaseTypeAddr) >> typeAddr.AddrShift
@@ -18,8 +20,10 @@ func CompileToGetCodeSet(ctx *RuntimeContext, typeptr uintptr) (*OpcodeSet, erro
 		if err != nil {
 			return nil, err
 		}
+		verifCacheReturn("fast-hit", typeptr, index, codeSet)
 		return filtered, nil
 	}
+	verifCacheGate("miss", typeptr)
 	codeSet, err := newCompiler().compile(typeptr)
 	if err != nil {
 		return nil, err
@@ -28,6 +32,8 @@ func CompileToGetCodeSet(ctx *RuntimeContext, typeptr uintptr) (*OpcodeSet, erro
 	if err != nil {
 		return nil, err
 	}
+	verifCacheGate("publish", typeptr)
 	cachedOpcodeSets[index] = codeSet
+	verifCacheReturn("fast-compiled", typeptr, index, codeSet)
 	return filtered, nil
 }
